@@ -66,6 +66,9 @@ class JSONSerialization(Serialization):
         type(None): 'null'
     }
 
+    # Classes whose instances do not serialize to a JSON object
+    json_schema_class_types = {bool: 'boolean', list: 'array', tuple: 'array'}
+
     @classmethod
     def loads(cls, serialized):
         return json.loads(serialized)
@@ -146,6 +149,8 @@ class JSONSerialization(Serialization):
             return {'anyOf': [cls.class__schema(cls_) for cls_ in class_]}
         elif class_ in cls.json_schema_literal_types:
             return {'type': cls.json_schema_literal_types[class_]}
+        elif class_ in cls.json_schema_class_types:
+            return {'type': cls.json_schema_class_types[class_]}
         elif issubclass(class_, Parameterized):
             return {'type': 'object', 'properties': class_.param.schema(safe)}
         else:
